@@ -3,6 +3,15 @@
 import json, os
 HERE = os.path.dirname(os.path.dirname(os.path.abspath(__file__)))
 CHECKS = {
+ "C01": dict(technique="reference dimension algebra + unit-rescaling metamorphic monitor over every equation object after the real imports",
+             text="Exhaustive over the catalogue of the working tree: every module is really imported and every published Relational (or list of them) is typed with an independent exponent-vector algebra (declared dimensions; strict exp/trig/hyperbolic arguments and exponents; matrices entrywise with the sum-over-k rule); numerically evaluable equations are additionally checked by rescaling the seven base units (two oracles; their disagreement is reported as a machinery defect, never as a violation). Because dimension is a property of the formula one walk covers all values.",
+             note="Trusted: vf/refdim.py node rules (= the statement), SymPy dimsys_SI for expanding declared dimensions.", ref="§4 C01"),
+ "C03": dict(technique="history sweep: fresh processes with controlled import order / id-counter bumps / object creations, fingerprints compared with the canonical process",
+             text="Exploration over histories: each history (order permutation, counter bumps across 9/10..9999/10000 boundaries through the real next_id, real object creations) runs in a fresh interpreter, imports every catalogue module and emits import outcome, structural+numeric equation fingerprints keyed by leaf identity, and calculate_* probe results; plus modules imported alone. Any import failure or change of meaning relative to the canonical history is a violation.",
+             note="Trusted: fixed PYTHONHASHSEED; numeric fingerprints with fixed stand-ins for undefined functions; sampled histories.", ref="§4 C03"),
+ "C04": dict(technique="reference gate predicate on harness-decorated functions (real validators) + exhaustive sweep of the catalogue's guarded parameters",
+             text="Exploration (core): functions decorated by the harness with the real validate_input/validate_output/validate_output_same for generated declarations are called with generated actual arguments (derived-unit spellings, angle factors, off-by-one exponents, numbers, zero/inf/nan, sequences, quantity vectors) in every call style and at three magnitudes/prefixes; outcome class and message are compared with a reference gate on exponent vectors. Exhaustive (catalogue): guard keys must name parameters; every guarded parameter of every decorated function is fed a wrong-dimension quantity and a bare number and must be refused with an error naming it.",
+             note="Trusted: reference gate (statement), SymPy dimsys_SI, closure introspection of the decorators.", ref="§4 C04"),
  "C05": dict(technique="reference-evaluator monitor on Quantity() over generated expression trees",
              text="Exploration: thousands of seeded expression trees (targeted shapes for the interaction of collector branches) go through the real Quantity(); each outcome (scale factor, dimension, refusal) is compared with an independent reference evaluator (own unit table, exponent vectors, refusal rule of the statement) with conditioning/precision filters so that float artefacts end inconclusive, never as violations.",
              note="Trusted: vf/units_ref.py unit table, mpmath arithmetic, SymPy canonicalisation of the input tree (shared by both sides).", ref="§4 C05"),
